@@ -591,6 +591,7 @@ func RunAllMulti(run *hlib.Run, sigPrefixes []string, n int) {
 		if expelled > 0 {
 			run.Count("multi-member-expelled")
 		}
+		run.Emit("scmark gm "+strconv.FormatUint(s, 10), "ok")
 		for _, l := range TraceLinesMulti(res) {
 			run.Emit(l, "ok")
 		}
